@@ -165,7 +165,8 @@ CHECKS = {
             "columns are byte offsets at rune boundaries (the server's own unit); UTF-16 column negotiation is outside the statement",
             "LSP clients never send a range whose start is after its end",
         ],
-        **tiers(3000, 60000),
+        "quick": {"timeout": 900, "runs": [{"run": "^TestProp(Exhaustive|Sequences|Server)$", "rapid_checks": 3000}, {"run": "^TestPropWire$", "rapid_checks": 400}]},
+        "thorough": {"timeout": 3000, "shards": 8, "runs": [{"run": "^TestProp(Exhaustive|Sequences|Server)$", "rapid_checks": 60000}, {"run": "^TestPropWire$", "rapid_checks": 5000}]},
     },
     "C20": {
         "pkg": "./checks/c20",
